@@ -98,7 +98,7 @@ def run(ctx: Ctx) -> None:
     def body(type_name, items, q):
         return [_pai.as_sstr(x) for x in printer.block_lines(I, lambda: models.printer(I, quote=q, indent=0, end_comment=False), type_name, items)]
 
-    lfmt = repo.loc("pprint", repo.func("pprint.PrettyPrinter._format"))
+    lfmt = repo.loc("pprint", repo.func(models.fmt_qual(repo)))
 
     def strtok(text, q):
         return X.eval_callback("string", lambda: [models.token("DOUBLE_QUOTED_STRING" if q == '"' else "SINGLE_QUOTED_STRING", text)])[0].value
@@ -212,7 +212,7 @@ def run(ctx: Ctx) -> None:
     # ---- R5 history independence ------------------------------------------------------------------
     ctx.rule("R5", "what the printer writes for (type, keyword, value) is the same on a printer that has already written other values as on a new one (values that are equal as text but differ in type, the same value under another keyword or object type)", 20)
     I5 = e.interp(allow_fork=False)
-    lp = repo.loc("pprint", repo.func("pprint.PrettyPrinter._format"))
+    lp = repo.loc("pprint", repo.func(models.fmt_qual(repo)))
 
     def written(calls, q):
         pp = models.printer(I5, quote=q, indent=0)
@@ -309,7 +309,7 @@ def run(ctx: Ctx) -> None:
         s = ln if isinstance(ln, str) else (ln.pieces[0] if isinstance(ln.pieces[0], str) else "")
         heads.append(s.strip().split(" ")[0] if s.strip() else "?")
     want = ["LAYER", "NAME", "TYPE", "PROCESSING", "PROCESSING", "PROJECTION", '"', "END", "METADATA", '"akey"', "END", "CLASS", "NAME", "END", "END"]
-    ctx.check(heads == want, "R2", "representative LAYER: order of emitted lines", repo.loc("pprint", repo.func("pprint.PrettyPrinter._format")), " ".join(heads), f"a LAYER with keys name,type,processing,projection,metadata,classes is printed in the order {heads}, expected {want}")
+    ctx.check(heads == want, "R2", "representative LAYER: order of emitted lines", repo.loc("pprint", repo.func(models.fmt_qual(repo))), " ".join(heads), f"a LAYER with keys name,type,processing,projection,metadata,classes is printed in the order {heads}, expected {want}")
     # child keys: composite() stores under k / plural(k); _format recurses via is_hidden_container / is_composite
     olk = repo.const("tokens", "OBJECT_LIST_KEYS")
     ok, msg = models.check_plural(e)
